@@ -120,6 +120,15 @@ type Outcome struct {
 }
 
 // RunOne executes one scenario run. variant<0: random run.
+// Deep scales an upper bound of a run (steps, objects, messages): the thorough
+// tier explores histories three times as long as the quick tier's.
+func (c *Ctx) Deep(hi int) int {
+	if c.Thorough {
+		return hi * 3
+	}
+	return hi
+}
+
 func RunOne(prop string, sc *Scenario, variant int, seed uint64, replay []uint32, trace bool, thorough bool, known func(string) bool, avoid map[string]bool) (out Outcome) {
 	shimnet.ResetRegistry()
 	w := sim.NewWorld(seed, replay)
